@@ -19,7 +19,7 @@ def plan(tier):
 
 
 def floors(tier):
-    return {"min_decided": 300, "counters": {"idempotence_evals": 3000, "append_only_evals": 500, "no_future_evals": 3000, "freshness_evals": 500, "injected_updates": 500, "injected_reads": 500, "frames_compared": 500},
+    return {"min_decided": 300, "counters": {"idempotence_evals": 3000, "append_only_evals": 500, "no_future_evals": 3000, "freshness_evals": 500, "derived_read_evals": 5000, "injected_updates": 500, "injected_reads": 500, "frames_compared": 500},
             "max_undecided_frac": 0.4}
 
 
@@ -71,5 +71,5 @@ def run_case(unit, cs, idx, build, params):
     if unit == "w2inject":
         return run_inject(cs)
     if unit == "w1fresh":
-        return _w1case.run_w1(cs, [mon1.Freshness(cs)])
+        return _w1case.run_w1(cs, [mon1.Freshness(cs), mon1.DerivedReads(cs)])
     return _w1case.run_w1(cs, [mon1.Idempotence(cs)])
